@@ -46,6 +46,17 @@ func verif_C10_server_stub() {
 	assume(inj[0] < 0x80)
 	in := append([]byte(plain+"STARTTLS\r\n"), inj...)
 	in = append(in, "RCPT TO:<plainrcpt@v>\r\n"...)
+	switch verifChoice(3) {
+	case 1:
+		// an unterminated plaintext line almost as long as a line may be
+		s.MaxLineLength = 40
+		in = append([]byte(plain+"STARTTLS\r\n"), "xxxxxxxxxxxxxxxxxxxxxxxxxxxxxxxxxxx"...)
+	case 2:
+		// a plaintext line over the limit (the limiter holds it back so that
+		// STARTTLS is answered first)
+		s.MaxLineLength = 40
+		in = append([]byte(plain+"STARTTLS\r\n"), "xxxxxxxxxxxxxxxxxxxxxxxxxxxxxxxxxxxxxxxxxxxxxxxxxxxxxxxxxxxx\r\nNOOP\r\n"...)
+	}
 	vc := &vconn{in: in, final: io.EOF, tlsFinal: io.EOF}
 	vc.tlsFail = nondetBool()
 	vc.tlsIn = []byte("RCPT TO:<stale@v>\r\nEHLO inside.example\r\nMAIL FROM:<inside@v>\r\nSTARTTLS\r\n")
